@@ -141,3 +141,64 @@ Proof.
   destruct i as [|i]; [reflexivity|]. vm_compute. destruct i; reflexivity.
 Qed.
 Print Assumptions c16_unreliable_close_returns_refuted.
+
+(* ------------------------------------------------------------------ bounded sender queue and the tube lock (Model/ShutdownQ.v) *)
+From Hop Require Import ShutdownQ ShutdownQProofs.
+(* The tube's sender queue has capacity [cap]; its producers (the muxer receiver acknowledging a data
+   frame, Close queueing the FIN, the window branch of Reliable.send) hold the tube lock r.l, its only
+   consumer Reliable.send takes r.l in its ticker and window branches and hands frames to the
+   unbuffered muxer queue, whose consumer Muxer.sender may be stuck in a blocking transport write
+   until Stop's forced close closes the transport.  With the code as it is now (an enqueue under r.l
+   never waits), for EVERY capacity, every schedule, any number of arriving data frames, ticks and
+   window events, blocking or non-blocking link, with or without unacknowledged frames: once Stop
+   began, a state in which nothing but background events (arrival, tick, window) is enabled has
+   Close/WaitForClose returned, the forced close finished, Reliable.send and the receiver ended, the
+   tube closed and signalled, the queue empty; no send on the closed queue, no second close. *)
+Theorem c16_full_queue_every_call_returns : forall cap wblock retx x,
+  qreach (mkQC cap true wblock retx) x -> qquiet (mkQC cap true wblock retx) x -> qfinal x /\ pn x = false.
+Proof. exact q_fixed_returns. Qed.
+Print Assumptions c16_full_queue_every_call_returns.
+
+(* both versions, every capacity, every schedule: no send on the closed sender queue and no second
+   close; r.l has at most one holder; the queue is closed exactly when the tube is closed; r.closed
+   is signalled only for a closed tube *)
+Theorem c16_full_queue_safe : forall c x, qreach c x ->
+  pn x = false /\ hR (rp x) + hS (sp x) + hC (cp x) + hF (fp x) = b2n (lk x) /\ qc x = tc x /\ (rc x = true -> tc x = true).
+Proof. exact q_safe. Qed.
+Print Assumptions c16_full_queue_safe.
+
+(* the code BEFORE the fix (an enqueue under r.l waits for room), for every capacity >= 1, on a
+   healthy non-blocking link: [cap] data frames arrive and are acknowledged into the queue before
+   Reliable.send runs, one more arrives (the muxer receiver now waits for room holding r.l), send's
+   select takes the ticker (it waits for r.l), Stop's forced close fires (its goroutine waits for
+   r.l): nothing can move any more - not even a background event - and Close has not returned.
+   Replayed on the real code by the driver's full-sender-queue scenarios (capacity 1024). *)
+Theorem c16_full_queue_every_call_returns_refuted : forall cap wblock retx, 1 <= cap ->
+  exists l x, qrun (mkQC cap false wblock retx) (qinit false) l = Some x /\
+    qdead (mkQC cap false wblock retx) x /\
+    cp x = C_lock /\ fp x = F_lock /\ rp x = R_enq /\ sp x = S_tick_lock /\ ql x = cap /\ xc x = true.
+Proof.
+  intros cap wb rx Hc. destruct (q_unfixed_deadlock cap wb rx Hc) as [H1 H2].
+  exists (qfill cap ++ [AArr; ARecv; ATick; AForce]), (qstuck cap). repeat split; assumption.
+Qed.
+Print Assumptions c16_full_queue_every_call_returns_refuted.
+
+(* non-vacuity: capacity 1, blocked link, Muxer.sender inside a write, unacknowledged frames: the queue
+   fills, a second acknowledgement is dropped, Reliable.send is stuck handing a frame to the muxer;
+   the forced close closes the transport, everything drains and the final state is reached; and the
+   refuted schedule (capacity 2) continues to the final state with the code as it is now *)
+Example c16_full_queue_run_fixed :
+  exists l x, qrun (mkQC 1 true true true) (qinit true) l = Some x /\ qfinal x /\ qquiet (mkQC 1 true true true) x.
+Proof.
+  exists [AArr; ARecv; ARecv; AArr; ARecv; ARecv; ASend; AForce; AMux; ASend; ATick; ASend; ASend;
+          AForce; AForce; ASend; AForce; AClose; AClose; ARecv].
+  eexists. split; [vm_compute; reflexivity|]. split; [vm_compute; repeat split; reflexivity|].
+  intros a Ha. destruct a; try discriminate Ha; reflexivity.
+Qed.
+Example c16_full_queue_refuted_schedule_fixed :
+  exists l x, qrun (mkQC 2 true false false) (qinit false)
+                (qfill 2 ++ [AArr; ARecv; ATick; AForce] ++ l) = Some x /\ qfinal x.
+Proof.
+  exists [ARecv; ASend; ASend; ASend; ASend; ASend; AMux; ASend; AForce; AForce; ASend; AForce; AClose; AClose; ARecv].
+  eexists. split; [vm_compute; reflexivity|]. vm_compute. repeat split; reflexivity.
+Qed.
